@@ -175,6 +175,9 @@ def apply_faults(df, idcols, iddims, faults, dims, wide):
         elif kind == "extra_valcol":
             df = df.copy()
             df["other_value"] = 1.5
+        elif kind == "extra_textcol":
+            df = df.copy()
+            df["unit"] = "t"          # an annotation column: a second value column that matches no dimension
     return df, idcols, iddims, affected
 
 
